@@ -19,9 +19,9 @@ def register(prop, run, KERNELS, C01_COVERS):
     prop("C06",
          quick=[run("C06_step", covers=["done", "delivered", "empty-range", "stopped-early"], nmax=2, cache=1, cmps=1, evictin=1),
                 run("C06_step", covers=["done", "delivered", "stopped-early"], nmin=2, nmax=2, cache=0, store=0, cmps=3, viasnap=1)],
-         thorough=[run("C06_step", covers=["done", "delivered", "empty-range", "stopped-early"], nmax=2, cache=1, cmps=3, klen=2, budget=3000),
-                   run("C06_step", covers=["done", "delivered", "stopped-early"], nmin=3, nmax=3, cache=2, cmps=1, evictin=1, budget=3000),
-                   run("C06_step", covers=["done", "delivered", "stopped-early"], nmin=4, nmax=4, cache=0, store=0, cmps=2, budget=3000)],
+         thorough=[run("C06_step", covers=["done", "delivered", "empty-range", "stopped-early"], nmax=2, cache=1, cmps=3, evictin=1, viasnap=1, budget=1800),
+                   run("C06_step", covers=["done", "delivered", "stopped-early"], nmin=3, nmax=3, cache=2, cmps=1, evictin=1, budget=1800),
+                   run("C06_step", covers=["done", "delivered", "stopped-early"], nmin=4, nmax=4, cache=0, store=0, cmps=2, budget=1800)],
          outside=["collections with more than 3 (quick 2..3) / 4 items", "comparators other than bytes.Compare, its reverse and reversed-string order", "IterateAscend/IterateDescend are covered under C18"],
          text=step_txt + "Oracle: the model's items filtered by the target, ordered by the comparator, cut at the stop position, depth = the depth assigned by the pre-state constructor.",
          note=NOTE, technique=TECH, design_ref="DESIGN.md §4 C06")
@@ -30,10 +30,9 @@ def register(prop, run, KERNELS, C01_COVERS):
          quick=[run("C09_readonly", covers=["done"], nmax=1, cache=1),
                 run("C09_readonly", covers=["done"], nmin=2, nmax=2, cache=2, budget=900),
                 run("C09_append", covers=["done", "flushed"], nmax=1, cache=1, ops=2)],
-         thorough=[run("C09_readonly", covers=["done"], nmax=2, cache=1, budget=3000),
-                   run("C09_readonly", covers=["done"], nmin=3, nmax=3, cache=2, budget=3000),
-                   run("C09_append", covers=["done", "flushed"], nmax=2, cache=1, ops=2, budget=3000),
-                   run("C09_append", covers=["done", "flushed"], nmax=1, cache=1, ops=3, budget=3000)],
+         thorough=[run("C09_readonly", covers=["done"], nmax=2, cache=1, budget=1800),
+                   run("C09_readonly", covers=["done"], nmin=3, nmax=3, cache=2, budget=1800),
+                   run("C09_append", covers=["done", "flushed"], nmax=1, cache=1, ops=3, budget=1800)],
          outside=["tools/view (uses os.File, not encoded)", "FlushRevert truncation is checked under C08", "histories longer than ops steps after the constructed pre-state"],
          text=step_txt + "Monitors on the harness StoreFile: every WriteAt offset >= end of the last durable root record, no truncate, durable prefix byte-for-byte unchanged; read-only entry points issue zero writes/truncates.",
          note=NOTE, technique=TECH, design_ref="DESIGN.md §4 C09")
@@ -44,11 +43,11 @@ def register(prop, run, KERNELS, C01_COVERS):
                 run("C13_step", covers=inv_cov, nmin=3, nmax=3, store=0, cache=0, variant=1),
                 run("C13_step", covers=inv_cov + ["canonical-checked"], nmax=3, store=0, cache=0, variant=2),
                 run("C13_step", covers=inv_cov + ["canonical-checked"], nmin=1, nmax=2, store=1, cache=2, variant=2, vlenmin=0)],
-         thorough=[run("C13_step", covers=inv_cov + ["decoded", "reopened"], nmax=2, cache=1, decode=1, klen=2, vlen=2, budget=3000),
-                   run("C13_step", covers=inv_cov + ["decoded"], nmin=3, nmax=3, cache=1, decode=1, budget=3000),
-                   run("C13_step", covers=inv_cov, nmin=4, nmax=4, store=0, cache=0, variant=1, budget=3000),
-                   run("C13_step", covers=inv_cov + ["canonical-checked"], nmax=3, store=0, cache=0, variant=2, ops=2, budget=3000),
-                   run("C13_step", covers=inv_cov + ["canonical-checked"], nmin=4, nmax=4, store=0, cache=0, variant=2, budget=3000)],
+         thorough=[run("C13_step", covers=inv_cov + ["decoded", "reopened"], nmax=2, cache=1, decode=1, klen=2, vlen=1, budget=1800),
+                   run("C13_step", covers=inv_cov + ["decoded"], nmin=3, nmax=3, cache=2, decode=1, budget=1800),
+                   run("C13_step", covers=inv_cov, nmin=4, nmax=4, store=0, cache=0, variant=1, budget=1800),
+                   run("C13_step", covers=inv_cov + ["canonical-checked"], nmin=4, nmax=4, store=0, cache=0, variant=2, budget=1800),
+                   run("C13_step", covers=inv_cov + ["canonical-checked"], nmax=2, store=0, cache=0, variant=2, ops=2, budget=1800)],
          outside=["trees with more than 3 / 4 items before the step(s)", "more than 2 consecutive operations from a constructed state"],
          text=step_txt + "After the step every node is walked directly: search order, exact numNodes/numBytes; heap order when no priority is lowered; with distinct priorities the reported depth of every item equals the canonical-depth formula over keys and priorities (ranking decided by the solver); the independent decoder re-checks persisted aggregates and children-before-parents.",
          note=NOTE, technique=TECH, design_ref="DESIGN.md §4 C13")
@@ -56,8 +55,9 @@ def register(prop, run, KERNELS, C01_COVERS):
     prop("C14",
          quick=KERNELS + [run("C14_fmt", covers=["done"], nmax=2, cache=1),
                           run("C14_fmt", covers=["done", "copied"], nmax=2, cache=2, copyto=1)],
-         thorough=KERNELS + [run("C14_fmt", covers=["done"], nmax=2, cache=1, klen=2, vlen=2, budget=3000),
-                             run("C14_fmt", covers=["done"], nmin=3, nmax=3, cache=1, budget=3000)],
+         thorough=KERNELS + [run("C14_fmt", covers=["done"], nmax=2, cache=1, klen=2, vlen=1, budget=1800),
+                             run("C14_fmt", covers=["done"], nmin=3, nmax=3, cache=2, budget=1800),
+                             run("C14_fmt", covers=["done", "copied"], nmax=2, cache=2, copyto=1, klen=2, budget=1800)],
          outside=["collection names other than a, b", "files with more than 2 collections"],
          text="Full-width kernel proofs (all 2^32/2^64 field values) of the item-header, ploc and node-record encoders/decoders against an independent big-endian byte spec; plus bounded symbolic model checking that files written by Flush/CopyTo from every constructed state decode, with an independent decoder sharing no code with gkvlite, to exactly the model.",
          note=NOTE, technique="symbolic execution of go/ssa + SMT (z3, QF_BV): full-width kernels + bounded state step", design_ref="DESIGN.md §4 C14")
@@ -69,9 +69,9 @@ def register(prop, run, KERNELS, C01_COVERS):
                 run("C19_keyonly", covers=["done", "some-reads"], nmin=3, nmax=3, preop=0, onlyop=8, vlenmin=1),
                 run("C19_race", covers=["done", "preempted"], nmin=1, nmax=1, vlenmin=1, preemptions=1)],
          thorough=[run("C19_open", covers=["done"], nmax=4, klen=2, vlen=2),
-                   run("C19_keyonly", covers=["done", "some-reads"], nmax=2, preop=1, budget=3000),
-                   run("C19_keyonly", covers=["done", "some-reads"], nmin=3, nmax=3, preop=0, budget=3000),
-                   run("C19_race", covers=["done", "preempted"], nmin=1, nmax=2, vlenmin=1, preemptions=2, budget=3000)],
+                   run("C19_keyonly", covers=["done", "some-reads"], nmax=2, preop=1, budget=1800),
+                   run("C19_keyonly", covers=["done", "some-reads"], nmin=3, nmax=3, preop=0, budget=1800),
+                   run("C19_race", covers=["done", "preempted"], nmin=1, nmax=2, vlenmin=1, preemptions=2, budget=1800)],
          outside=["files holding more than 3 / 4 items", "values longer than 2 bytes"],
          text=step_txt + "The harness StoreFile logs every read; the independent decoder supplies the byte ranges of every value and of the root record; assertion: opening reads only the root record (at most 2 reads, none below it), key-only operations issue no read intersecting any value range.",
          note=NOTE, technique=TECH, design_ref="DESIGN.md §4 C19")
@@ -90,9 +90,9 @@ def register(prop, run, KERNELS, C01_COVERS):
     prop("C02",
          quick=[run("C02_step", covers=["done"], nmax=2, cache=1, preop=1),
                 run("C02_step", covers=["done", "trailing-unflushed", "second-generation"], nmax=1, cache=1, ncolls=2, trailing=1, preop=0, secondgen=1, budget=900)],
-         thorough=[run("C02_step", covers=["done"], nmax=3, cache=1, klen=2, vlen=2, budget=3000),
-                   run("C02_step", covers=["done", "trailing-unflushed", "second-generation"], nmax=2, cache=1, ncolls=2, trailing=1, preop=1, secondgen=1, budget=3000),
-                   run("C02_step", covers=["done", "trailing-unflushed"], nmax=1, cache=1, ncolls=2, trailing=2, preop=1, secondgen=1, budget=3000)],
+         thorough=[run("C02_step", covers=["done"], nmax=2, cache=1, preop=1, klen=2, budget=1800),
+                   run("C02_step", covers=["done"], nmin=3, nmax=3, cache=2, preop=1, budget=1800),
+                   run("C02_step", covers=["done", "trailing-unflushed", "second-generation"], nmax=2, cache=2, ncolls=2, trailing=1, preop=0, secondgen=1, budget=1800)],
          outside=["more than 2 collections; names other than a, b, c", "more than 2 unflushed trailing operations", "trees with more than 3 items at the flush"],
          text=step_txt + "Flush from every constructed state (every dirty/persisted frontier of every shape), then re-open the same file in a new Store: names, keys, values, priorities and totals must equal the model at the flush, whatever unflushed operations (mutations, SetCollection, RemoveCollection) followed; a second generation (mutate the re-opened store, flush, re-open) is checked the same way.",
          note=NOTE, technique=TECH, design_ref="DESIGN.md §4 C02")
@@ -101,10 +101,10 @@ def register(prop, run, KERNELS, C01_COVERS):
          quick=[run("C03_torn", covers=["done", "crash-inside-root-record", "crash-inside-data", "recovered-last-flush", "continued"], prior=1, inflight=1, vlen=1),
                 run("C03_junk", covers=["done", "recovered-last-flush", "continued"], prior=1, vlen=1, junkmin=0, junkmax=24),
                 run("C03_accept", covers=["done", "accepted", "rejected"], junkmax=1)],
-         thorough=[run("C03_accept", covers=["done", "accepted", "rejected"], junkmax=2, budget=3000),
-                   run("C03_torn", covers=["done", "crash-inside-root-record", "crash-inside-data", "recovered-last-flush", "continued"], prior=2, inflight=2, vlen=2, budget=3000),
-                   run("C03_torn", covers=["done", "crash-inside-root-record"], prior=1, inflight=1, vlen=7, budget=3000),
-                   run("C03_junk", covers=["done", "recovered-last-flush", "continued"], prior=2, vlen=2, junkmin=0, junkmax=45, budget=3000)],
+         thorough=[run("C03_accept", covers=["done", "accepted", "rejected"], junkmax=2, budget=1800),
+                   run("C03_torn", covers=["done", "crash-inside-root-record", "crash-inside-data", "recovered-last-flush", "continued"], prior=2, inflight=2, vlen=1, budget=1800),
+                   run("C03_torn", covers=["done", "crash-inside-root-record"], prior=1, inflight=1, vlen=7, budget=1800),
+                   run("C03_junk", covers=["done", "recovered-last-flush", "continued"], prior=2, vlen=1, junkmin=0, junkmax=45, budget=1800)],
          outside=["values of 8 or more bytes (long enough, with the priority field, to spell both end markers and a consistent trailer: the adversarial value the property excludes)", "junk tails of 46 bytes or more (a complete self-consistent root record fits)", "media faults that reorder or alter already written bytes", "more than 2 prior flushes / 2 collections"],
          text="Bounded symbolic model checking of the real SSA: the crash image is rebuilt from the harness file's write log at EVERY write boundary and EVERY byte offset of the write in flight (one path each), with key/value/priority bytes symbolic, so whether uncommitted bytes can be mistaken for a root record is decided by the solver; a second harness appends a fully symbolic junk tail (0..24 / 0..45 bytes) to a durable prefix. NewStore on the image must yield exactly the last completely written flush (or empty / the documented no-roots error), and a further mutation+Flush on the recovered store must be durable.",
          note=NOTE, technique=TECH, design_ref="DESIGN.md §4 C03")
@@ -113,10 +113,9 @@ def register(prop, run, KERNELS, C01_COVERS):
          quick=[run("C04_hist", covers=["done", "had-snapshot"], store=0, k=4, snaps=2, opmask=mask(0, 1, 4, 5, 6)),
                 run("C04_hist", covers=["done", "had-snapshot"], store=1, k=3, snaps=2, opmask=mask(0, 1, 2, 3, 4, 6, 7, 8, 10, 15, 16)),
                 run("C04_hist", covers=["done", "had-snapshot"], store=0, k=4, snaps=2, init=0, opmask=mask(0, 4, 6, 10))],
-         thorough=[run("C04_hist", covers=["done", "had-snapshot"], store=1, k=5, snaps=2, opmask=mask(0, 1, 2, 3, 4, 5, 6), budget=3000),
-                   run("C04_hist", covers=["done", "had-snapshot"], store=0, k=6, snaps=2, init=0, opmask=mask(0, 4, 6), budget=3000),
-                   run("C04_hist", covers=["done", "had-snapshot"], store=0, k=5, snaps=2, init=0, opmask=mask(0, 4, 6, 10), budget=3000),
-                   run("C04_hist", covers=["done", "had-snapshot"], store=1, k=4, snaps=3, opmask=mask(0, 1, 2, 3, 4, 5, 6, 7, 8, 9, 10, 15), budget=3000)],
+         thorough=[run("C04_hist", covers=["done", "had-snapshot"], store=1, k=5, snaps=2, opmask=mask(0, 1, 2, 3, 4, 5, 6), budget=1800),
+                   run("C04_hist", covers=["done", "had-snapshot"], store=0, k=5, snaps=2, init=0, opmask=mask(0, 4, 6, 10), budget=1800),
+                   run("C04_hist", covers=["done", "had-snapshot"], store=1, k=4, snaps=2, opmask=mask(0, 1, 2, 3, 4, 5, 6, 7, 8, 10, 15, 16), budget=1800)],
          outside=["histories longer than K = 4 (quick) / 5 (thorough) steps", "more than 2 / 3 snapshots, more than collections a, b", "FlushRevert on the original while snapshots are open (documented as unsupported)", "1-byte keys and values"],
          text=hist_txt + "Operations: Set, Delete, Flush, Evict, Snapshot (of the store or of a snapshot), close a snapshot, snapshot.FlushRevert, RemoveCollection, SetCollection on an existing name, Store.Close. Snapshots must keep reading the contents at their creation, must refuse Set/Delete/Flush, and snapshot-side operations must not write to the file.",
          note=NOTE, technique=TECH, design_ref="DESIGN.md §4 C04")
@@ -124,8 +123,8 @@ def register(prop, run, KERNELS, C01_COVERS):
     prop("C10",
          quick=[run("C10_hist", covers=["done"], store=0, k=3, snaps=1, opmask=mask(0, 1, 4, 6, 7, 8, 10, 11, 12)),
                 run("C10_hist", covers=["done"], store=0, k=3, snaps=1, init=1, opmask=mask(0, 4, 6, 12))],
-         thorough=[run("C10_hist", covers=["done"], store=0, k=4, snaps=1, opmask=mask(0, 1, 4, 6, 7, 8, 10, 11, 12), budget=3000),
-                   run("C10_hist", covers=["done"], store=1, k=4, snaps=2, opmask=mask(0, 1, 2, 3, 4, 6, 8, 12), budget=3000)],
+         thorough=[run("C10_hist", covers=["done"], store=0, k=4, snaps=1, opmask=mask(0, 1, 4, 6, 7, 8, 10, 11, 12), budget=1800),
+                   run("C10_hist", covers=["done"], store=1, k=4, snaps=2, opmask=mask(0, 1, 2, 3, 4, 6, 8, 12), budget=1800)],
          outside=["histories longer than K = 3..4 steps", "more than two stores sharing the free lists"],
          text=hist_txt + "Two stores share the process-wide free lists (the package initialiser is executed by the engine on every path). After every step, besides re-reading all handles, the harness inspects the heap directly: no node reachable from a live root or pinned version is on the node free list, no node / nodeLoc / rootNodeLoc is on a free list twice; then unrelated allocation in the other store forces reuse of anything freed and everything is read again.",
          note=NOTE, technique=TECH, design_ref="DESIGN.md §4 C10")
@@ -134,8 +133,9 @@ def register(prop, run, KERNELS, C01_COVERS):
          quick=[run("C12_hist", covers=["done", "final-reopen"], store=1, k=3, opmask=mask(0, 1, 2, 7, 8, 9, 13), final_reopen=1),
                 run("C12_hist", covers=["done"], store=0, k=4, opmask=mask(0, 7, 8, 9), final_reopen=0),
                 run("C12_hist", covers=["done", "final-reopen"], store=1, k=3, opmask=mask(0, 2, 7, 9), final_reopen=1, emptyname=1)],
-         thorough=[run("C12_hist", covers=["done", "final-reopen"], store=1, k=4, opmask=mask(0, 1, 2, 7, 8, 9, 13), final_reopen=1, budget=3000),
-                   run("C12_hist", covers=["done"], store=0, k=5, opmask=mask(0, 7, 8, 9), final_reopen=0, budget=3000)],
+         thorough=[run("C12_hist", covers=["done", "final-reopen"], store=1, k=4, opmask=mask(0, 1, 2, 7, 8, 9, 13), final_reopen=1, budget=1800),
+                   run("C12_hist", covers=["done", "final-reopen"], store=1, k=4, opmask=mask(0, 2, 7, 9), final_reopen=1, emptyname=1, budget=1800),
+                   run("C12_hist", covers=["done"], store=0, k=5, opmask=mask(0, 7, 8, 9), final_reopen=0, budget=1800)],
          outside=["names other than a, b", "histories longer than K = 3..5 steps"],
          text=hist_txt + "Operations: SetCollection on new and existing names, RemoveCollection, Set/Delete through the handles returned, Flush, re-open. GetCollectionNames must be the sorted model name set, contents of every collection must equal its model, and after a final re-open only flushed changes are visible.",
          note=NOTE, technique=TECH, design_ref="DESIGN.md §4 C12")
@@ -146,9 +146,9 @@ def register(prop, run, KERNELS, C01_COVERS):
                 run("C15_hist", covers=["done"], store=1, k=3, snaps=1, readback=1, init=0, opmask=mask(0, 2, 13, 17)),
                 run("C15_get", store=1)],
          thorough=[run("C15_get", store=1),
-                   run("C15_hist", covers=["done"], store=1, k=3, snaps=1, readback=1, init=2, opmask=mask(0, 1, 2, 3, 4, 6, 13, 14, 17), budget=3000),
-                   run("C15_hist", covers=["done"], store=1, k=4, snaps=1, readback=1, opmask=mask(0, 1, 2, 3, 4, 6, 7, 13, 14), budget=3000),
-                   run("C15_hist", covers=["done"], store=0, k=4, snaps=2, readback=1, opmask=mask(0, 1, 4, 5, 6, 8, 12, 14), budget=3000)],
+                   run("C15_hist", covers=["done"], store=1, k=4, snaps=1, readback=1, opmask=mask(0, 1, 2, 3, 4, 6, 7, 13, 14), budget=1800),
+                   run("C15_hist", covers=["done"], store=1, k=4, snaps=1, readback=1, init=0, opmask=mask(0, 1, 2, 13, 17), budget=1800),
+                   run("C15_hist", covers=["done"], store=0, k=4, snaps=2, readback=1, opmask=mask(0, 1, 4, 5, 6, 8, 12, 14), budget=1800)],
          outside=["histories longer than K = 3..4 steps", "more than collections a, b"],
          text=hist_txt + "ItemAlloc/ItemAddRef/ItemDecRef callbacks keep a count per *Item: no count may drop below zero, every item handed to the caller or cached in an open handle must have a positive count, and after closing the store and all snapshots every count must be back to the caller's own references.",
          note=NOTE, technique=TECH, design_ref="DESIGN.md §4 C15")
@@ -156,9 +156,9 @@ def register(prop, run, KERNELS, C01_COVERS):
     prop("C07",
          quick=[run("C07_fault", covers=["done", "fault-injected", "two-generations"], nmax=2, cache=0, vlenmin=1, faultops=4095, maxfail=6),
                 run("C07_fault", covers=["done", "fault-injected"], nmin=3, nmax=3, cache=0, vlenmin=1, faultops=192, maxfail=8)],
-         thorough=[run("C07_fault", covers=["done", "fault-injected", "two-generations"], nmax=2, cache=0, vlenmin=1, faultops=4095, maxfail=10, klen=2, budget=3000),
-                   run("C07_fault", covers=["done", "fault-injected"], nmin=3, nmax=3, cache=0, vlenmin=1, faultops=4095, maxfail=10, budget=3000),
-                   run("C07_fault", covers=["done", "fault-injected"], nmin=4, nmax=4, cache=0, vlenmin=1, faultops=192, maxfail=12, budget=3000)],
+         thorough=[run("C07_fault", covers=["done", "fault-injected", "two-generations"], nmax=2, cache=0, vlenmin=1, faultops=4095, maxfail=10, klen=2, budget=1800),
+                   run("C07_fault", covers=["done", "fault-injected"], nmin=3, nmax=3, cache=0, vlenmin=1, faultops=4095, maxfail=10, budget=1800),
+                   run("C07_fault", covers=["done", "fault-injected"], nmin=4, nmax=4, cache=0, vlenmin=1, faultops=192, maxfail=12, budget=1800)],
          outside=["more than one injected failure per history", "trees with more than 3 (quick: Set/Delete only at 3) / 4 items", "failures of Stat/Truncate other than at open / FlushRevert"],
          text=step_txt + "From a freshly re-opened store (everything unloaded) the k-th StoreFile call of one API call fails, k enumerated over all calls; a failing WriteAt first writes a prefix whose length is a symbolic integer. Assertions: an error is returned, no panic, the visible contents are unchanged, the file image re-opens to the last durable state, a follow-up mutation / retried Flush behaves as if the failed call had never been made, and no live node is on a free list afterwards.",
          note=NOTE, technique=TECH, design_ref="DESIGN.md §4 C07")
@@ -167,9 +167,8 @@ def register(prop, run, KERNELS, C01_COVERS):
          quick=[run("C08_revert", covers=["done", "reverted-to-empty", "reverted-to-flush"], store=1, flushes=2, bigval=1, lean=1, cmps=2, unwind_violation=1, step_budget=400000),
                 run("C08_revert", covers=["done", "reverted-to-empty", "continued"], store=1, flushes=1, bigval=0, lean=0, unwind_violation=1, step_budget=400000),
                 run("C08_revert", covers=["memonly"], store=0, flushes=0, bigval=0, lean=0, unwind_violation=1)],
-         thorough=[run("C08_revert", covers=["done", "reverted-to-empty", "reverted-to-flush", "continued"], store=1, flushes=2, bigval=0, lean=0, unwind_violation=1, step_budget=400000, budget=3000),
-                   run("C08_revert", covers=["done", "reverted-to-empty", "reverted-to-flush"], store=1, flushes=3, bigval=1, lean=1, unwind_violation=1, step_budget=800000, budget=3000),
-                   run("C08_revert", covers=["done", "reverted-to-empty", "reverted-to-flush", "continued"], store=1, flushes=2, bigval=1, lean=0, unwind_violation=1, step_budget=400000, budget=3000),
+         thorough=[run("C08_revert", covers=["done", "reverted-to-empty", "reverted-to-flush", "continued"], store=1, flushes=2, bigval=0, lean=0, unwind_violation=1, step_budget=400000, budget=1800),
+                   run("C08_revert", covers=["done", "reverted-to-empty", "reverted-to-flush"], store=1, flushes=3, bigval=1, lean=1, cmps=2, unwind_violation=1, step_budget=800000, budget=1800),
                    run("C08_revert", covers=["memonly"], store=0, flushes=0, bigval=0, lean=0, unwind_violation=1)],
          outside=["more than 2 (quick) / 3 (thorough) flushes before the reverts", "collections other than a", "1-byte keys; values of 1 byte, or 12 symbolic bytes (long enough to spell the doubled end marker) for the first item of the newest flush"],
          text="Bounded symbolic model checking of the real SSA: histories with f flushes of symbolic data (optionally across a re-open, optionally with an unflushed change pending, set only or also written with Collection.Write) followed by r = 1..f+1 consecutive FlushReverts. Termination is checked with a code-derived step cap (each scan iteration strictly decreases Store.size): exceeding it is reported as the violation and confirmed natively under a watchdog. State, file length and a re-open must match the model's flush stack after each revert; new flushes after a revert must be durable; memory-only stores must reject the call. A 12-byte symbolic value lets the solver try to fool the backward scan with look-alike end markers.",
@@ -178,8 +177,8 @@ def register(prop, run, KERNELS, C01_COVERS):
     prop("C11",
          quick=[run("C11_copyto", covers=["done", "durable-copy"], nmax=2, cache=2, ncolls=1),
                 run("C11_copyto", covers=["done", "durable-copy"], nmax=1, cache=1, ncolls=2)],
-         thorough=[run("C11_copyto", covers=["done", "durable-copy"], nmax=2, cache=2, ncolls=2, budget=3000),
-                   run("C11_copyto", covers=["done", "durable-copy"], nmin=3, nmax=3, cache=2, ncolls=1, budget=3000)],
+         thorough=[run("C11_copyto", covers=["done", "durable-copy"], nmax=2, cache=2, ncolls=2, budget=1800),
+                   run("C11_copyto", covers=["done", "durable-copy"], nmin=3, nmax=3, cache=2, ncolls=1, budget=1800)],
          outside=["sources with more than 2 collections or more than 3 items per collection", "flushEvery values other than -1, 0, 1, 2, total+1"],
          text=step_txt + "CopyTo from a writable store, a snapshot or a freshly re-opened file (custom comparator included), every flushEvery in {-1,0,1,2,total+1}: the destination must hold exactly the model; with flushEvery > 0 the destination file must re-open and independently decode to the same state and contain exactly one item record per live item; the source contents and the source file (no write, no truncate, same length) must be unchanged.",
          note=NOTE, technique=TECH, design_ref="DESIGN.md §4 C11")
@@ -188,13 +187,12 @@ def register(prop, run, KERNELS, C01_COVERS):
          quick=[run("C16_enum", covers=["done", "empty"], nmax=4, store=0, cache=0, cmps=2),
                 run("C16_boundary", covers=["done"], nmin=1023, nmax=1026, rand_concrete=1, step_budget=60000000, budget=900,
                     note="engine-executed boundary sizes with concrete keys: not a solver claim over contents")],
-         thorough=[run("C16_enum", covers=["done", "empty"], nmax=5, store=0, cache=0, budget=3000),
-                   run("C16_enum", covers=["done"], nmin=6, nmax=6, store=0, cache=0, budget=3000),
-                   run("C16_boundary", covers=["done"], nmin=1023, nmax=1026, rand_concrete=1, step_budget=60000000, budget=3000,
+         thorough=[run("C16_enum", covers=["done", "empty"], nmax=5, store=0, cache=0, cmps=2, budget=1800),
+                   run("C16_boundary", covers=["done"], nmin=1023, nmax=1026, rand_concrete=1, step_budget=60000000, budget=1800,
                        note="engine-executed boundary sizes with concrete keys: not a solver claim over contents"),
-                   run("C16_boundary", covers=["done"], nmin=2047, nmax=2050, rand_concrete=1, step_budget=120000000, budget=3000,
+                   run("C16_boundary", covers=["done"], nmin=2047, nmax=2050, rand_concrete=1, step_budget=120000000, budget=1800,
                        note="engine-executed boundary sizes with concrete keys: not a solver claim over contents"),
-                   run("C16_boundary", covers=["done"], nmin=3071, nmax=3074, rand_concrete=1, step_budget=200000000, budget=3000,
+                   run("C16_boundary", covers=["done"], nmin=3071, nmax=3074, rand_concrete=1, step_budget=200000000, budget=1800,
                        note="engine-executed boundary sizes with concrete keys: not a solver claim over contents")],
          outside=["symbolic contents for collections larger than 4..6 items (lenBlock >= 2 needs n > 1024: those sizes are executed with concrete keys, the block shuffle fixed to the identity)", "sizes other than 0..6 and 1023..1026, 2047..2050, 3071..3074"],
          text=step_txt + "Len() must equal n; VisitItemsAscendBlockEx (block order = every permutation, enumerated) and VisitItemsRandom (rand.Intn symbolic) must present each key exactly once (multiset equality decided by the solver over symbolic keys). Sizes around 1024/2048/3072 are executed by the same engine on directly built trees with concrete keys.",
@@ -202,8 +200,8 @@ def register(prop, run, KERNELS, C01_COVERS):
 
     prop("C17",
          quick=[run("C17_rel", covers=["done", "reopened"], k=2, vlen=2, allsubsets=0)],
-         thorough=[run("C17_rel", covers=["done", "reopened"], k=3, vlen=2, allsubsets=0, budget=3000),
-                   run("C17_rel", covers=["done", "reopened"], k=2, vlen=2, allsubsets=1, budget=3000)],
+         thorough=[run("C17_rel", covers=["done", "reopened"], k=3, vlen=2, allsubsets=0, budget=1800),
+                   run("C17_rel", covers=["done", "reopened"], k=2, vlen=1, allsubsets=1, budget=1800)],
          outside=["tools/slab (imports go-slab; not encoded)", "histories longer than K = 2..3 steps", "callback subsets other than {all, each single callback} in the quick tier (all 255 non-empty subsets in the thorough tier)"],
          text="Relational (self-composition) bounded symbolic model checking: the same symbolic operation sequence is applied to two stores, one with a subset of behaviourally neutral callbacks (custom ItemAlloc, ItemValLength, chunked ItemValWrite/ItemValRead, identity BeforeItemWrite/AfterItemRead, KeyCompareForCollection, no-op ref callbacks); every result must be pairwise equal, the two flushed files must be byte-for-byte equal, and the file must decode independently to the model.",
          note=NOTE, technique=TECH, design_ref="DESIGN.md §4 C17")
@@ -212,18 +210,18 @@ def register(prop, run, KERNELS, C01_COVERS):
          quick=[run("C18_iter", covers=["done", "closed", "exhausted"], nmax=2, store=0, cache=0, preemptions=1),
                 run("C18_iter", covers=["done", "closed"], nmin=1, nmax=1, store=0, cache=0, preemptions=1, itermut=1),
                 run("C18_reentrant", covers=["done"], nmin=1, nmax=2, store=1, cache=2)],
-         thorough=[run("C18_iter", covers=["done", "closed", "exhausted"], nmax=3, store=0, cache=0, preemptions=2, budget=3000),
-                   run("C18_iter", covers=["done", "closed", "exhausted"], nmax=2, store=1, cache=2, preemptions=1, budget=3000),
-                   run("C18_reentrant", covers=["done"], nmin=1, nmax=3, store=1, cache=2, budget=3000)],
+         thorough=[run("C18_iter", covers=["done", "closed", "exhausted"], nmax=3, store=0, cache=0, preemptions=2, budget=1800),
+                   run("C18_iter", covers=["done", "closed", "exhausted"], nmax=2, store=1, cache=2, preemptions=1, itermut=1, budget=1800),
+                   run("C18_reentrant", covers=["done"], nmin=1, nmax=3, store=1, cache=2, budget=1800)],
          outside=["more than 2 / 3 items", "more than 1 / 2 pre-emptive context switches per schedule (switches at blocking channel operations are free)", "weak-memory behaviours (sequential consistency assumed)"],
          text="Bounded symbolic model checking with a controlled scheduler: the iterator's producer goroutine and the consumer are interpreted goroutines, every channel operation is a scheduling decision enumerated like any other path decision; the consumer performs every sequence of Next/Close calls up to n+2. After Close or exhaustion Next must be false, the producer must have exited (not merely be blocked), the pinned version must be released, and no schedule may deadlock. Re-entrant visitor callbacks (reads, mutations, Snapshot, Flush, Evict inside a visit) must complete without self-deadlock on the modelled mutexes and see the pinned version.",
          note=NOTE, technique="symbolic execution of go/ssa + SMT with an enumerated scheduler (context-bounded)", design_ref="DESIGN.md §4 C18")
 
     prop("C05",
          quick=[run("C05_conc", covers=["done", "flushed", "preempted"], initial=1, mutations=1, flusher=1, preemptions=1, nkeys=2, evict=0, dirty=0, maporder=0, budget=900)],
-         thorough=[run("C05_conc", covers=["done", "flushed", "preempted"], initial=2, mutations=1, flusher=1, preemptions=1, nkeys=3, evict=1, dirty=1, maporder=0, budget=3000),
-                   run("C05_conc", covers=["done", "preempted"], initial=1, mutations=2, flusher=0, preemptions=2, nkeys=2, evict=0, dirty=0, maporder=0, budget=3000),
-                   run("C05_conc", covers=["done", "flushed", "preempted"], initial=1, mutations=2, flusher=1, preemptions=1, nkeys=2, evict=0, dirty=1, maporder=2, budget=3000)],
+         thorough=[run("C05_conc", covers=["done", "flushed", "preempted"], initial=1, mutations=1, flusher=1, preemptions=1, nkeys=3, evict=1, dirty=1, maporder=0, budget=1800),
+                   run("C05_conc", covers=["done", "preempted"], initial=1, mutations=2, flusher=0, preemptions=2, nkeys=2, evict=0, dirty=0, maporder=0, budget=1800),
+                   run("C05_conc", covers=["done", "flushed", "preempted"], initial=1, mutations=2, flusher=1, preemptions=1, nkeys=2, evict=0, dirty=0, maporder=2, budget=2400)],
          outside=["weak-memory behaviours: sequential consistency is assumed (the code has deliberate unsynchronised accesses, nodeMutex = false)", "more than 1 (quick) / 2 pre-emptive context switches per schedule; switches at blocking points are free", "pre-emption only at mutex, atomic, channel, StoreFile-call and visitor-callback boundaries, not at every memory access", "one reader performing one operation; at most 2 mutations; concrete keys a..c (values symbolic)"],
          text="Bounded symbolic model checking with an enumerated scheduler: mutator, flusher and reader are interpreted goroutines over one harness StoreFile; every mutex operation, atomic, StoreFile call and visitor callback is a scheduling decision, enumerated exhaustively up to the pre-emption bound. Each read result must equal the contents of one version whose validity interval intersects the call interval (a visit is compared as a whole sequence), no schedule may panic or deadlock, the mutator's final state must be the sequential result, and the file written by the concurrent Flush must re-open to per-collection versions that were current during the Flush, a not later than b.",
          note=NOTE + "; sequential consistency; schedule-dependent counterexamples are replayed concretely in the engine when the native build cannot be forced onto the schedule",
